@@ -136,14 +136,21 @@ Definition oracle_of (valid echo : list (list Z)) (chal : list Z) : oracle :=
 Definition phase_no (p : phase) : Z :=
   match p with P1 => 1 | P2 => 2 | P3 => 3 | P4 => 4 | P5 => 5 | P6 => 6 end.
 
-Definition obs_sconn (tbl : list (list Z)) (r : sconn * list out) :=
+(* the challenge packet the case expects is abbreviated to [3] *)
+Definition obs_out_s (tbl : list (list Z)) (sent : list Z) (o : out) : list Z :=
+  match o with
+  | Sent b => if list_eqb b sent then [3] else 3 :: b
+  | _ => obs_out tbl o
+  end.
+
+Definition obs_sconn (tbl : list (list Z)) (sent : list Z) (r : sconn * list out) :=
   let w := sw (fst r) in
-  (map (obs_out tbl) (snd r),
+  (map (obs_out_s tbl sent) (snd r),
    (slive (fst r), wrestored w, phase_no (wphase w), wlen w, wbuf w,
     (fbuf (cfs (winner w)), obs_len (flen (cfs (winner w)))))).
 
-Definition srun_lens O ch tbl (lens : list Z) (s : list Z) :=
-  obs_sconn tbl (sconn_run O ch sinit (split_lens lens s)).
+Definition srun_lens O ch tbl sent (lens : list Z) (s : list Z) :=
+  obs_sconn tbl sent (sconn_run O ch sinit (split_lens lens s)).
 
 (* ---- examples ------------------------------------------------------------- *)
 Definition ex_O := oracle_of [[7]; [8]] [[8]] [99; 100].
